@@ -64,6 +64,10 @@ static void cut_patterns(size_t n,bool quick,vt::rng &rng,std::vector<cutset> &o
 		// a burst of one-byte segments somewhere, and cuts hugging the 16 KiB read size
 		{ std::set<int> s; int a=1+rng(n-1); for(int i=0;i<24 && a+i<(int)n;i++) s.insert(a+i); out.push_back(cutset(s.begin(),s.end())); }
 		if(n>16400) { cutset c; c.push_back(16383); c.push_back(16384); c.push_back(16385); out.push_back(c); }
+		// ONE early cut (inside the request line / the first headers / the length prefix) and the whole rest - with a body
+		// larger than the front-end's read size - in a single segment: header parsing and a big read meet
+		{ static const int early[]={1,2,5,9,17,33,60,90,130,180,250,400}; for(size_t i=0;i<sizeof(early)/sizeof(early[0]);i++) if(early[i]<(int)n) { cutset c; c.push_back(early[i]); out.push_back(c); } }
+		{ cutset c; c.push_back(3); c.push_back(4); c.push_back(40); out.push_back(c); }
 		return;
 	}
 	int stride=1;
